@@ -17,6 +17,14 @@ CHECKS = {
          "Every scope skeleton up to the bound (quick: <=3 nested procedures x 2 names x 3 binding modes x 4 read/write/call placement patterns = 47,988 programs; thorough: 3 names x 4 modes) is run on the VM and on the reference interpreter and the complete probe log is compared; random skeletons with 4 levels, 3 names and 5 modes (incl. rest parameters and let) are sampled beyond it, plus 8 fixed families (closures created in loops, getter/setter pairs, shared counters).",
          "The reference interpreter's environment model defines the property. One VM is reused for up to 100 skeletons; mismatches are confirmed in a fresh VM.",
          "DESIGN.md section 4, C02"),
+ "C03": ("differential (run with forced collections vs run without) + heap invariants from an independent reachability traversal, over proptest-driven programs x generated collection schedules; collections forced through the real run_gc by a hook",
+         "Generated sessions (call/cc on), scope skeletons and 10 allocation-heavy templates are run under a collection at every instruction, every k-th instruction (k in 2..16), pseudo-random boundaries (p=1/3, 1/50) and after every top-level form; results/output must equal the run without forced collections and the reference interpreter, and at every observed collection the harness' own reachability set is checked against the heap after the sweep (no reachable cell freed or changed, symbol table = allocated symbols, free list duplicate-free and disjoint from allocated cells, no mark left behind).",
+         "Forced collections use the verif hook (pretend-full flag around the real run_gc); reachability is the harness' own traversal of raw VM state; with a collection per instruction invariants are checked on the first 64 collections and every 4th thereafter.",
+         "DESIGN.md section 4, C03"),
+ "C04": ("grid enumeration + proptest-driven random compositions of tail contexts, oracle = stack high-water hook at n=10/10^3/10^5 plus closed-form value and non-tail twin",
+         "Every single tail context (27) x caller arity 0..4 x callee arity 0..4 x rest flags, self and 2-procedure mutual recursion, is run at n=10 and n=10^3 (a deterministic sample also at 10^5); random compositions of depth 1-3 over 1-3 procedures. The stack high-water mark at 10^3/10^5 must be within 16 slots of the one at n=10, the value must equal the closed form and the non-tail twin.",
+         "Stack high-water = maximum of sp over pushes and instruction boundaries (verif hook). n is sampled at three points, not proved for all n; the threshold is >2 orders of magnitude away from the failing behaviour (>= 4 slots per iteration).",
+         "DESIGN.md section 4, C04"),
  "C05": ("differential against a reference interpreter with persistent multi-shot continuations over proptest-driven typed program generation with call/cc productions",
          "Sessions with call/cc at operand, tail and nested positions; continuations escape, return normally, are stored in globals and re-entered 0-3 times (counter-guarded) from the same form, from procedures, loops, for-each callbacks and later top-level forms. Values, failures and output are compared form by form with the reference interpreter in three VMs.",
          "Trusts the reference interpreter's continuation model (REPL semantics for the bottom frame, pinned by the suite). Continuations receive exactly one value; map callbacks neither capture nor invoke continuations.",
@@ -33,6 +41,10 @@ CHECKS = {
          "Every generated text is scanned and parsed datum by datum: no panic, spans non-empty/in bounds/on char boundaries/ordered, gaps only whitespace and comments, remaining text exactly at the first token after the datum (reference extent), loop visits each datum once. Every token-boundary prefix of every generated well-formed datum (with and without a whitespace/comment trailer) must be Incomplete and the complete datum must not. Exploration: holds on everything generated (one recorded known finding), nothing beyond.",
          "Which texts are errors is not asserted. Datum extents come from the harness' parser over the scanner's token types; for well-formed texts cut points and expected remaining offsets are the generator's own. A hang would be attributed by an in-worker watchdog and counts as a violation.",
          "DESIGN.md section 4, C11"),
+ "C07": ("fault injection into proptest-generated sessions (failing forms of every kind at every depth, repeated), differential against the reference interpreter and against a fresh VM that performed only the completed effects; resource ladder via the stack/heap hooks",
+         "Sessions from the program generator get 1-4 injected failing forms (7 run-time error kinds at call depth 0..200, inside/outside a call/cc receiver, after 0-2 completed effects; bad syntax; unbalanced text; repetition up to 12x). Every later form is compared with the reference interpreter; the stack trace of a failing form is compared with its trace in a fresh VM that only performed the completed effects; sp must return to its fresh value; a ladder of k in {1,2,10,100(,1000)} consecutive failures x depth x kind must not grow sp, stack capacity, trace length or live heap.",
+         "Failing forms are built so that their completed-effects prefix is known by construction. Live heap is measured after a forced collection.",
+         "DESIGN.md section 4, C07"),
  "C08": ("boundary-value grid + proptest-driven palette operands in every internal representation against exact BigRational arithmetic (reference model), plus a metamorphic relation (same mathematical operands, different representation => same answer)",
          "Every pair of ~100 boundary values (0, +-1, +-2, within 2 of +-2^31/2^32/2^53/2^63/2^64, edge rationals) under + - * / quotient remainder modulo, every boundary value under abs floor ceiling truncate numerator denominator and under expt with 10 exponents, each in every combination of representations (fixnum, bignum also for small values, n/1, n/d), plus 16 x 25k (quick) / 16 x 400k (thorough) random palette cases (random 32..256-bit integers, reduced rationals, results landing on a boundary, + and * on 2..5 operands). Exploration: holds on everything generated except the listed known findings, nothing beyond.",
          "Trusts num's BigInt/BigRational. 'Representable' is marwood's documented exact model (any integer; n/d with 32-bit parts). Only the checked build (overflow panics) is exercised; panics and wrong exact values are one failure kind. The 41 known-finding classes are tolerated by input class, so another defect inside such a class with the same failure kind would be masked.",
